@@ -71,6 +71,41 @@ Proof.
 Qed.
 Print Assumptions C03_embedded_only_as_fallback.
 
+(* The model follows the library WITH proposed_fix/C03-1 (MetaData.certs skips a key descriptor without X509Data).
+   BEFORE that repair (md_certs_before_fix: KeyError for the whole entity, swallowed by _check_signature as "no
+   certificates from metadata") the statement above was false of the code: metadata holds a signing certificate for
+   the issuer (key 1), a second signing KeyDescriptor carries a KeyName only - and the embedded certificate of an
+   unrelated key (9) was consulted and trusted. *)
+Definition fed_keyname : mdstore :=
+  [(s2l "https://idp.example.org/idp", [[ {| kd_use := Some SIGNING; kd_certs := [1] |}; {| kd_use := Some SIGNING; kd_certs := [] |} ]])].
+Theorem C03_embedded_only_as_fallback_before_fix_refuted :
+  exists m issuer embedded signer l,
+    md_certs m issuer SIGNING = Some l /\ l <> [] /\ ~ In signer l /\
+    candidate_certs_before_fix true m issuer false embedded = Ok embedded /\
+    check_signature_before_fix true m issuer false embedded signer = Ok tt /\
+    check_signature true m issuer false embedded signer = Err (s2l "SignatureError").
+Proof.
+  exists fed_keyname, (Some (s2l "https://idp.example.org/idp")), [9], 9, [1].
+  split; [reflexivity|]. split; [discriminate|]. split; [intros [H|[]]; discriminate|]. repeat split; reflexivity.
+Qed.
+Print Assumptions C03_embedded_only_as_fallback_before_fix_refuted.
+
+(* ... and under the default setting the code before the repair was needlessly strict, never lax: it refused (MissingKey)
+   the issuer's own declared key, and whatever it accepted the repaired code accepts *)
+Theorem C03_before_fix_default_setting :
+  (exists m issuer embedded signer,
+     check_signature true m issuer true embedded signer = Ok tt /\
+     check_signature_before_fix true m issuer true embedded signer = Err (s2l "MissingKey")) /\
+  (forall mp m issuer embedded signer,
+     check_signature_before_fix mp m issuer true embedded signer = Ok tt ->
+     check_signature mp m issuer true embedded signer = Ok tt).
+Proof.
+  split.
+  - exists fed_keyname, (Some (s2l "https://idp.example.org/idp")), [1], 1. split; reflexivity.
+  - exact check_signature_before_fix_default_sound.
+Qed.
+Print Assumptions C03_before_fix_default_setting.
+
 (* non-vacuity: a two-IdP federation *)
 Definition idpA := s2l "https://idp.example.org/idp".
 Definition idpB := s2l "https://idp2.example.org/idp".
